@@ -87,15 +87,39 @@ func c06(c *Ctx) {
 			}
 		}
 	}
+	// a deferred closure that resets the service mode runs on every exit after the defer statement
+	for _, b := range mk.Blocks {
+		for _, in := range b.Instrs {
+			df, ok := in.(*ssa.Defer)
+			if !ok {
+				continue
+			}
+			if mc, ok := df.Call.Value.(*ssa.MakeClosure); ok {
+				if fn, ok := mc.Fn.(*ssa.Function); ok {
+					for _, fb := range fn.Blocks {
+						for _, fi := range fb.Instrs {
+							if st, ok := fi.(*ssa.Store); ok {
+								if fa, ok := st.Addr.(*ssa.FieldAddr); ok && an.FieldName(fa.X.Type(), fa.Field) == "mtproto.MTProto.serviceModeActivated" {
+									if k, ok := st.Val.(*ssa.Const); ok && k.Value != nil && k.Value.String() == "false" {
+										stSvc = append(stSvc, df)
+									}
+								}
+							}
+						}
+					}
+				}
+			}
+		}
+	}
 	nExit := 0
 	for _, b := range mk.Blocks {
 		for _, in := range b.Instrs {
 			ret, ok := in.(*ssa.Return)
-			if !ok || len(ret.Results) != 1 {
-				continue
+			if !ok || len(ret.Results) != 1 || b == mk.Recover {
+				continue // (the recover block of a function with defers returns the result slot after a panic)
 			}
-			d := an.NewDeps(nil).Of(ret.Results[0])
-			isSuccess := an.IsNilConst(ret.Results[0]) || d.Has("MTProto).SaveSession")
+			d := an.NewDeps(nil).Of(returnedValue(ret, 0))
+			isSuccess := an.IsNilConst(returnedValue(ret, 0)) || d.Has("MTProto).SaveSession")
 			if !isSuccess {
 				continue
 			}
@@ -487,4 +511,26 @@ func c06Arithmetic(c *Ctx) {
 	r.Extra["arith_census_sites"] = n
 	r.Extra["arith_census_discharged"] = d
 	r.Extra["arith_census_accepted"] = a
+}
+
+// returnedValue: the value a return statement hands back.  In a function with defers go/ssa spills results into
+// a slot: `store slot <- v; rundefers; return *slot` — the value is then the last store to the slot in the
+// returning block.
+func returnedValue(ret *ssa.Return, idx int) ssa.Value {
+	v := ret.Results[idx]
+	ld, ok := v.(*ssa.UnOp)
+	if !ok || ld.Op != token.MUL {
+		return v
+	}
+	slot, ok := ld.X.(*ssa.Alloc)
+	if !ok {
+		return v
+	}
+	b := ret.Block()
+	for i := len(b.Instrs) - 1; i >= 0; i-- {
+		if st, ok := b.Instrs[i].(*ssa.Store); ok && st.Addr == ssa.Value(slot) {
+			return st.Val
+		}
+	}
+	return v
 }
